@@ -74,44 +74,55 @@ def g1_literal_attrs(prog: Program, run: Run, rule: str, patterns: Sequence[str]
 
 # --------------------------------------------------------------------- G2
 def g2_repeated_tests(prog: Program, run: Run, rule: str, patterns: Sequence[str]) -> int:
+    """A test that is already decided by the tests directly in front of it: an `elif` that
+    repeats an earlier test of its chain, or -- the same thing after branch normalisation -- an
+    `if` that is the first statement of a branch whose condition it contradicts. Only chains
+    without statements in between are followed, so nothing can have changed the operands."""
     n = 0
     for f in funcs_in(prog, patterns):
-        heads: Set[int] = set()
+        # parent links: If -> (parent If, polarity) when it is the FIRST statement of a branch
+        link = {}
         for x in walk_no_nested(f.node):
-            if isinstance(x, ast.If) and len(x.orelse) == 1 and isinstance(x.orelse[0], ast.If):
-                heads.add(id(x))
-        inner = set()
+            if isinstance(x, ast.If):
+                if x.body and isinstance(x.body[0], ast.If):
+                    link[id(x.body[0])] = (x, True)
+                if x.orelse and isinstance(x.orelse[0], ast.If):
+                    link[id(x.orelse[0])] = (x, False)
         for x in walk_no_nested(f.node):
-            if isinstance(x, ast.If) and len(x.orelse) == 1 and isinstance(x.orelse[0], ast.If):
-                inner.add(id(x.orelse[0]))
-        for x in walk_no_nested(f.node):
-            if not (isinstance(x, ast.If) and id(x) in heads and id(x) not in inner):
+            if not isinstance(x, ast.If) or id(x) not in link:
                 continue
-            seen = {}
-            cur: Optional[ast.If] = x
-            chain_len = 0
-            bad = False
-            while cur is not None:
-                chain_len += 1
-                # tests with a walrus or a call with side effects are not compared
-                has_walrus = any(isinstance(y, ast.NamedExpr) for y in ast.walk(cur.test))
-                k = norm_test(cur.test)
-                if k in seen and not has_walrus:
-                    bad = True
-                    run.violation(rule, f"{f.module.rel}:{f.qual}",
-                                  "repeated-test:" + " ".join(ast.unparse(cur.test).split())[:80],
-                                  f"the branch `elif {ast.unparse(cur.test)}` repeats the test of "
-                                  f"an earlier branch of the same chain (line {seen[k]}): it can "
-                                  "never be taken", f"{f.module.rel}:{cur.lineno}",
-                                  stmt_key(cur))
-                seen.setdefault(k, cur.lineno)
-                nxt = cur.orelse[0] if len(cur.orelse) == 1 and isinstance(
-                    cur.orelse[0], ast.If) else None
-                cur = nxt
             n += 1
-            if not bad:
+            if any(isinstance(y, ast.NamedExpr) for y in ast.walk(x.test)):
+                continue
+            k_pos = norm_test(x.test)
+            k_neg = norm_test(x.test, negate=True)
+            cur = x
+            hit = None
+            depth = 0
+            while id(cur) in link:
+                par, pol = link[id(cur)]
+                depth += 1
+                if not any(isinstance(y, ast.NamedExpr) for y in ast.walk(par.test)):
+                    pk = norm_test(par.test, negate=not pol)  # what holds on this branch
+                    if pk == k_neg:
+                        hit = (par, "can never be taken")
+                        break
+                    if pk == k_pos:
+                        hit = (par, "is always taken")
+                        break
+                cur = par
+            if hit is not None:
+                par, what = hit
+                run.violation(rule, f"{f.module.rel}:{f.qual}",
+                              "repeated-test:" + " ".join(ast.unparse(x.test).split())[:80],
+                              f"the branch `if {ast.unparse(x.test)}` {what}: its test is decided "
+                              f"by the test of line {par.lineno} directly in front of it (an "
+                              "`elif` repeating an earlier test of its chain)",
+                              f"{f.module.rel}:{x.lineno}", stmt_key(x))
+            else:
                 run.ok(rule, f"{f.module.rel}:{f.qual}",
-                       f"if/elif chain with {chain_len} distinct tests", f"{f.module.rel}:{x.lineno}")
+                       f"test not decided by the {depth} test(s) in front of it",
+                       f"{f.module.rel}:{x.lineno}")
     return n
 
 
